@@ -124,6 +124,9 @@ MUTATIONS = {
         ('decode', 'tonic/src/codec/decode.rs', r'self\.inner\.state = State::Error\(None\);\s*return Poll::Ready\(Some\(Err\(status\)\)\);\s*\}\s*\}\s*\n\s*match ready!', 'return Poll::Ready(Some(Err(status)));\n                }\n            }\n\n            match ready!', 'decode error does not enter the error state'),
     ],
     'C08': [
+        ('metadata', 'tonic/src/metadata/encoding.rs', r'\(Err\(_\), Err\(_\)\) => true,', '(Err(_), Err(_)) => false,', 'two undecodable binary values never compare equal'),
+        ('metadata', 'tonic/src/metadata/encoding.rs', r'Self::from_bytes\(value\.as_ref\(\)\)', 'HeaderValue::from_maybe_shared(value).map_err(|_| InvalidMetadataValueBytes::new())', 'an owned binary buffer is written raw instead of base64'),
+        ('metadata', 'tonic/src/metadata/value.rs', r'VE::values_equal\(&self\.inner, &other\.inner\)', 'self.inner == other.inner', 'binary values compare by their wire text (padding-sensitive)'),
         ('metadata', 'tonic/src/metadata/encoding.rs', r'\.eq_ignore_ascii_case\(b"-bin"\)', '.eq_ignore_ascii_case(b"_bin")', 'binary keys are told apart by another suffix'),
         ('metadata', 'tonic/src/metadata/encoding.rs', r'key\.len\(\) >= 4 && key\[key\.len\(\) - 4\.\.\]', 'key.len() >= 3 && key[key.len() - 4..]', 'the suffix test of a three-byte key indexes before the start'),
         ('metadata', 'tonic/src/metadata/map.rs', r"-> OccupiedEntry<'a, VE> \{\n        OccupiedEntry \{\n            inner: self\.inner\.insert_entry", "-> OccupiedEntry<'a, Ascii> {\n        OccupiedEntry {\n            inner: self.inner.insert_entry", 'insert_entry hands out an ASCII handle whatever the encoding'),
